@@ -258,6 +258,13 @@ def view_header_rule(chk, cid, prog, cfgname):
             chk.violate(cid, inst, loc(f, f.body), f.name, 'the permuted-column view never receives its `%s`' % fld, cfgname=cfgname)
             continue
         x, r = seen[fld]
+        if r.k == 'Ref':      # a local that holds the field: follow its single definition
+            defs = [y for y in f.body.walk() if (y.k == 'Assign' and y.a['op'] == '=' and strip(y.c[0]).k == 'Ref' and strip(y.c[0]).a.get('id') == r.a.get('id'))
+                    or (y.k == 'Var' and y.c and y.a.get('id') == r.a.get('id'))]
+            if len(defs) == 1:
+                r = strip(defs[0].c[1] if defs[0].k == 'Assign' else defs[0].c[0])
+        if r.k != 'Member' and fld in ('nrow', 'ncol'):
+            raise AnalysisBroken('sp_preorder: `%s` is not a copy of a header field this rule can trace' % pretty(x))
         good = r.k == 'Member' and strip(r.c[0]).k == 'Ref' and strip(r.c[0]).a.get('id') == ids['A'] and r.a.get('name') == fld
         if good:
             chk.ok(cid, inst, sample=pretty(x))
